@@ -217,10 +217,14 @@ class DirectObjectAccess:
         return tuple(self._create_access_path(cls) for cls in self._obj.__mro__[1:])
 
     def py__getitem__all_values(self):
+        # Use the methods of the builtin types, subclasses might override them
+        # and we don't want to execute these.
         if isinstance(self._obj, dict):
-            return [self._create_access_path(v) for v in self._obj.values()]
-        if isinstance(self._obj, (list, tuple)):
-            return [self._create_access_path(v) for v in self._obj]
+            return [self._create_access_path(v) for v in dict.values(self._obj)]
+        if isinstance(self._obj, list):
+            return [self._create_access_path(v) for v in list.__iter__(self._obj)]
+        if isinstance(self._obj, tuple):
+            return [self._create_access_path(v) for v in tuple.__iter__(self._obj)]
 
         if self.is_instance():
             cls = DirectObjectAccess(self._inference_state, self._obj.__class__)
@@ -436,7 +440,7 @@ class DirectObjectAccess:
     def get_key_paths(self):
         def iter_partial_keys():
             # We could use list(keys()), but that might take a lot more memory.
-            for (i, k) in enumerate(self._obj.keys()):
+            for (i, k) in enumerate(dict.keys(self._obj)):
                 # Limit key listing at some point. This is artificial, but this
                 # way we don't get stalled because of slow completions
                 if i > 50:
